@@ -19,7 +19,7 @@ ASSUMPTIONS = [
     "hash(): only 'equal markers hash alike' is observed",
 ]
 TRUSTED_EXTRA = [
-    "ast.literal_eval on a quoted token without backslash = its body, failing exactly on NUL/LF/CR (checked over all code points when the model was written)",
+    "ast.literal_eval on a quoted token without backslash = its body, failing exactly on NUL/LF/CR (re-checked by the law 'law.k.literaleval': code points below U+3000 in the quick tier, all of them in the thorough tier)",
 ]
 
 
@@ -143,4 +143,7 @@ def streams(rng, tier):
         out.append(Case("mutated", "k.str", [s]))
         if rng.random() < 0.3: out.append(Case("law-roundtrip", "law.k.roundtrip", [s, json.dumps(G.env_for(rng, f))], kind="law"))
         if rng.random() < 0.2: out.append(Case("law-req", "law.k.req", [s], kind="law"))
+    # the literal_eval oracle boundary, per code point
+    if q: out.append(Case("law-literal-eval", "law.k.literaleval", ["0", str(0x3000)], kind="law"))
+    else: out += [Case("law-literal-eval", "law.k.literaleval", [str(a), str(a + 0x8000)], kind="law") for a in range(0, 0x110000, 0x8000)]
     return out
